@@ -106,7 +106,7 @@ ResponderOf(transport, r) ==
     ELSE IF IsSmb2(r) THEN "SMB2"
     ELSE IF IsStunResponse(r) /\ StunLen(r) = Len(r) - 20 /\ StunMethod(r) = 1 THEN "STUN"
     ELSE IF transport = "udp" /\ IsRpcReply(r, 0) THEN "RPC"
-    ELSE IF transport = "tcp" /\ IsRpcReply(r, 4) /\ RmLast(r) THEN "RPC"
+    ELSE IF IsRpcReply(r, 4) /\ RmLast(r) /\ RmLen(r) = P32(Len(r) - 4) THEN "RPC"
     ELSE IF Len(r) >= 12 /\ DnsQR(r) = 1 THEN "DNS"
     ELSE "unknown"
 
@@ -172,6 +172,50 @@ AppJudge(transport, before, done, seg, ctx, rpl, aux) ==
     (* C15: other classes and methods get no STUN response *)
     \cup (IF answered /\ who = "STUN" /\ StunOtherClassOrMethod(seg)
           THEN { << "C15", "stun-response-to-non-binding-request" >> } ELSE {})
+
+(***************************************************************************)
+(* Canonical form of an application reply for property C19: the reply with *)
+(* exactly the fields masked that by specification carry an endpoint       *)
+(* address (STUN MAPPED-ADDRESS, portmapper ports/addresses/netids, DNS A  *)
+(* RDATA with its length octets) or wall-clock time (HTTP Date, SMB times).*)
+(***************************************************************************)
+DATEHDR == << 100, 97, 116, 101, 58 >>                       \* "date:"
+
+RECURSIVE LineEnd(_, _)
+LineEnd(b, o) == IF o + 1 > Len(b) THEN o ELSE IF b[o + 1] = 10 THEN o ELSE LineEnd(b, o + 1)
+
+HttpCanon(r) ==
+    LET hb == BodyStart(r, 0)
+        d  == IF hb = 0 THEN 0 ELSE HeaderLineWith(r, 0, hb, DATEHDR)
+    IN IF d = 0 THEN r ELSE SubSeq(r, 1, d) \o SubSeq(r, LineEnd(r, d) + 1, Len(r))
+
+RECURSIVE DnsAnswersCanon(_, _, _)
+DnsAnswersCanon(r, o, k) ==      \* k answers from offset o: owner name, type, class, ttl of each
+    IF k = 0 \/ o + 1 > Len(r) THEN << >>
+    ELSE LET ne == IF r[o + 1] \div 64 = 3 THEN o + 2 ELSE NulEnd(r, o) IN
+         IF ne = -1 \/ ne + 10 > Len(r) THEN << -1 >>
+         ELSE SubSeq(r, o + 1, ne + 8) \o DnsAnswersCanon(r, ne + 10 + DU16(r, ne + 8), k - 1)
+
+DnsCanon(r) ==
+    IF Len(r) < 12 THEN r
+    ELSE LET w == Questions(r, 12, IF DnsQd(r) <= 64 THEN DnsQd(r) ELSE 0, << >>) IN
+         IF w.st # "ok" THEN r
+         ELSE SubSeq(r, 1, w.end) \o DnsAnswersCanon(r, w.end, IF DnsAn(r) <= 64 THEN DnsAn(r) ELSE 0)
+
+ZeroAt(r, o, n) == [ i \in 1..Len(r) |-> IF i > o /\ i <= o + n THEN 0 ELSE r[i] ]
+
+AppCanon(transport, r) ==
+    LET who == ResponderOf(transport, r) IN
+    CASE who = "HTTP" -> HttpCanon(r)
+      [] who = "STUN" -> SubSeq(r, 1, 2) \o SubSeq(r, 5, 20)
+      [] who = "DNS"  -> DnsCanon(r)
+      [] who = "RPC"  -> LET ro == IF transport = "udp" /\ IsRpcReply(r, 0) THEN 0 ELSE 4 IN
+                         IF Len(r) < ro + 24 THEN r
+                         ELSE IF RU32(r, ro + 20) = << 0, 0 >> THEN SubSeq(r, ro + 1, ro + 24)       \* success bodies carry the endpoint
+                         ELSE SubSeq(r, ro + 1, Len(r))
+      [] who = "SMB1" -> IF Len(r) >= 4 + 33 + 34 /\ S1Cmd(r) = 114 /\ r[4 + 33] = 17 THEN ZeroAt(r, 4 + 33 + 23, 8) ELSE r
+      [] who = "SMB2" -> IF Len(r) >= 4 + 64 + 64 /\ S2Cmd(r) = 0 THEN ZeroAt(r, 4 + 64 + 40, 16) ELSE r
+      [] OTHER -> r
 
 (***************************************************************************)
 (* Known deviation classes (keys listed in KNOWN_FINDINGS.txt).            *)
